@@ -20,7 +20,18 @@ def _bv(items):
 
 
 def V(pubkey, h, sig):
-    """the oracle predicate, shared by the stub and the reference interpreter"""
+    """the oracle predicate, shared by the stub and the reference interpreter.
+    With path_state['ecdsa_table'] = [(pubkey, digest, der_sig), ...] it is the idealised ECDSA of C05:
+    exactly the registered triples verify."""
+    st = stubs.cur_state() or {}
+    table = st.get('ecdsa_table')
+    if table is not None:
+        from .core import s_or, s_and
+        alts = []
+        for (p, d, s) in table:
+            if len(p) == len(pubkey) and len(d) == len(h) and len(s) == len(sig):
+                alts.append(s_and(VBytes(pubkey) == p, VBytes(h) == d, VBytes(sig) == s))
+        return s_or(*alts) if alts else False
     pk, hh, sg = _items(pubkey), _items(h), _items(sig)
     k = (len(pk), len(hh), len(sg))
     f = _V.get(k)
